@@ -9,7 +9,7 @@ import os, re, warnings
 import numpy as np
 import vlib
 
-LEVEL_TEXT = ('Lean 4 theorems about tables regenerated from the source on every run: all 15 cells of the code table equal the '
+LEVEL_TEXT = ('Lean 4 theorems about tables regenerated from the source on every run (the content is the 15+3 generated cells and the class table; `run_eq_doc`/`final_eq_doc` lift them to programs of any length by a two-line induction and `refusal_preserves_state` is a property of the model\'s `next` by construction, not evidence about the code): all 15 cells of the code table equal the '
               'documented RST table; propagation typing; for every program of any length (induction) the code machine and the '
               'documented machine give the same trace of types/refusals; a refusal leaves the type unchanged; every documented '
               'class except Rotate/Flip has its documented ptype and acts as documented (partial: Rotate/Flip are an open known '
@@ -23,7 +23,7 @@ GEN = ['PlaneType']
 OPS = ['C08']
 RULE = ('programs of 1..12 (quick) / 1..40 (thorough) operations drawn from {multiply by an instance of each of the 9 public plane '
         'classes (scalar or array-valued), multiply by Plane(ptype=t) for each of the 5 ptypes, propagate_dft, propagate_fft} '
-        'from each of the 3 start types, each built three ways (one array field; no field: Wavefront.empty; no field left after two planes with non-overlapping apertures); distinct = (start, op sequence); non-trivial = the program contains at least one '
+        'with operands as built / through pickle / through copy.deepcopy / with a directly constructed PType, from each of the 3 start types, each built three ways (one array field; no field: Wavefront.empty; no field left after two planes with non-overlapping apertures); distinct = (start, op sequence); non-trivial = the program contains at least one '
         'accepted and one refused step or a propagation')
 TRUSTED = ['table generators of tools/specs/c08.py: evaluation of the closed Python fragment of _can_mul_ptype/_mul_result_ptype/'
            '_propagate_ptype/constructors on every input of their finite domain; RST grid/simple table parsing']
@@ -32,7 +32,14 @@ UNPROVEN = ['"a refused operation leaves both operands unchanged" at the level o
             'applicability of lentil.Rotate / lentil.Flip (open known finding KF-C08-rotate-flip)']
 ASSUMPTIONS = ['programs continue after a refusal with the operands as they were (as a Python session that catches the exception)']
 
-CLASSES = ['Plane', 'Pupil', 'Image', 'Tilt', 'DispersiveTilt', 'Grism', 'LensletArray', 'Rotate', 'Flip']
+def _public_classes():
+    """the plane classes exported by lentil/__init__.py (same source as the generated `PlaneClass`)"""
+    import ast
+    tree = ast.parse(open(os.path.join(vlib.REPO, 'lentil', '__init__.py')).read())
+    for n in tree.body:
+        if isinstance(n, ast.ImportFrom) and n.module == 'lentil.plane': return [a.name for a in n.names]
+    return ['Plane', 'Pupil', 'Image', 'Tilt', 'DispersiveTilt', 'Grism', 'LensletArray', 'Rotate', 'Flip']
+CLASSES = _public_classes()
 PTYPES = ['none', 'pupil', 'image', 'tilt', 'transform']
 WTYPES = ['none', 'pupil', 'image']
 # how the start wavefront is built: one array field / no field at all (Wavefront.empty) / no field left after two planes
@@ -55,22 +62,35 @@ def generate(rng, tier):
         for _ in range(L):
             t = int(rng.integers(0, 10))
             if t < 6:
-                ops.append({'k': 'cls', 'cls': CLASSES[int(rng.integers(0, 9))], 'arr': bool(rng.integers(0, 3) == 0), 'par': int(rng.integers(0, 4))})
+                ops.append({'k': 'cls', 'cls': CLASSES[int(rng.integers(0, len(CLASSES)))], 'arr': bool(rng.integers(0, 3) == 0), 'par': int(rng.integers(0, 4))})
             elif t < 8:
                 ops.append({'k': 'pt', 'pt': PTYPES[int(rng.integers(0, 5))], 'arr': bool(rng.integers(0, 3) == 0), 'par': int(rng.integers(0, 4))})
             else:
                 ops.append({'k': 'prop', 'fft': bool(rng.integers(0, 2)), 'par': int(rng.integers(0, 4))})
+        # how the operands reached the call: as built, through pickle, through copy.deepcopy / Plane.copy, or (explicit ptypes)
+        # with a PType constructed directly instead of by the lentil.ptype() factory
+        for o in ops:
+            if o['k'] != 'prop': o['via'] = ['plain', 'plain', 'pickle', 'deepcopy', 'direct'][int(rng.integers(0, 5))]
+            o['wvia'] = ['plain', 'plain', 'plain', 'pickle', 'deepcopy'][int(rng.integers(0, 5))]
         out.append({'start': WTYPES[i % 3], 'mode': MODES[(i // 3) % 4 % 3], 'ops': ops})
+    # every class / ptype once through each route, from each start type
+    for s in WTYPES:
+        for via in ('pickle', 'deepcopy', 'direct'):
+            for c in CLASSES: out.append({'start': s, 'mode': 'field', 'ops': [{'k': 'cls', 'cls': c, 'arr': False, 'par': 1, 'via': via, 'wvia': 'plain'}, {'k': 'prop', 'fft': False, 'par': 0, 'wvia': via if via != 'direct' else 'plain'}]})
+            for p in PTYPES: out.append({'start': s, 'mode': 'field', 'ops': [{'k': 'pt', 'pt': p, 'arr': False, 'par': 0, 'via': via, 'wvia': 'pickle'}]})
     return out
 
 def _opname(o):
-    return o['cls'] if o['k'] == 'cls' else ('pt:' + o['pt'] if o['k'] == 'pt' else 'prop')
+    n = o['cls'] if o['k'] == 'cls' else ('pt:' + o['pt'] if o['k'] == 'pt' else 'prop')
+    v = (o.get('via', 'plain')[0] if o.get('via', 'plain') != 'plain' else '') + (o.get('wvia', 'plain')[0].upper() if o.get('wvia', 'plain') != 'plain' else '')
+    return n + ('~' + v if v else '')
 
 def signature(c): return c['start'] + '/' + c.get('mode', 'field') + ' ' + ' '.join(_opname(o) for o in c['ops'])
 def nontrivial(c): return len(c['ops']) > 1 or c['ops'][0]['k'] == 'prop'
 def tags(c):
     t = ['start:' + c['start'], 'mode:' + c.get('mode', 'field'), 'len:%d' % min(len(c['ops']), 20)]
-    t += sorted({('op:' + _opname(o)) for o in c['ops']})
+    t += sorted({('op:' + _opname(o).split('~')[0]) for o in c['ops']})
+    t += sorted({'via:' + o.get('via', 'plain') for o in c['ops'] if o['k'] != 'prop'} | {'wavefront-via:' + o.get('wvia', 'plain') for o in c['ops']})
     return t
 
 # ------------------------------------------------------------------------------------------ implementation
@@ -78,7 +98,7 @@ def _mkplane(o, w):
     import lentil
     amp = np.ones(tuple(w.shape)) if (o['arr'] and len(tuple(w.shape)) == 2 and 0 < int(np.prod(w.shape)) <= 4096) else 1
     par = o['par']
-    if o['k'] == 'pt': return lentil.Plane(amplitude=amp, ptype=o['pt'])
+    if o['k'] == 'pt': return lentil.Plane(amplitude=amp, ptype=_direct_ptype(o['pt']) if o.get('via') == 'direct' else o['pt'])
     c = o['cls']
     if c == 'Plane': return lentil.Plane(amplitude=amp, opd=1e-8 * par)
     if c == 'Pupil': return lentil.Pupil(amplitude=amp, focal_length=1.0 + par)
@@ -89,7 +109,19 @@ def _mkplane(o, w):
     if c == 'LensletArray': return lentil.LensletArray(amplitude=amp)
     if c == 'Rotate': return lentil.Rotate(angle=90 * par)
     if c == 'Flip': return lentil.Flip(axis=None if par == 0 else par % 2)
-    raise KeyError(c)
+    return getattr(lentil, c)()        # a class this harness has no recipe for: default constructor
+
+def _route(obj, via):
+    import pickle, copy
+    if via == 'pickle': return pickle.loads(pickle.dumps(obj))
+    if via == 'deepcopy': return copy.deepcopy(obj)
+    return obj
+
+def _direct_ptype(name):
+    """a PType built by the class itself, not by the lentil.ptype() factory"""
+    import sys
+    vlib.import_lentil()
+    return sys.modules['lentil.ptype'].PType(name)
 
 def _snap_arr(a):
     a = np.asarray(a)
@@ -123,6 +155,7 @@ def impl(case):
         if str(w.ptype) != case['start']: return {'exc': 'start'}
         trace, mutated, ptypes = [], [], []
         for i, o in enumerate(case['ops']):
+            w = _route(w, o.get('wvia', 'plain'))
             if o['k'] == 'prop':
                 plane = None
                 sw = _snap_w(w)
@@ -139,7 +172,7 @@ def impl(case):
                     if _snap_w(w) != sw: mutated.append([i, 'wavefront'])
                 ptypes.append(None)
                 continue
-            plane = _mkplane(o, w)
+            plane = _route(_mkplane(o, w), o.get('via', 'plain'))
             ptypes.append(str(plane.ptype))
             sw, sp = _snap_w(w), _snap_p(plane)
             try:
